@@ -66,7 +66,7 @@ fn sched(point: u8) -> bool {
 struct Never;
 impl Future for Never { type Output = (); fn poll(self: Pin<&mut Self>, _: &mut Context<'_>) -> Poll<()> { Poll::Pending } }
 
-// @verif prop=C18 tier=quick timeout=1500 mem=16 replay=none bounds="one signal (handler possibly split after its first step), <= 3 polls of the accept loop, listener never ready"
+// @verif prop=C18 tier=quick timeout=1500 mem=10 replay=none bounds="one signal (handler possibly split after its first step), <= 3 polls of the accept loop, listener never ready"
 #[kani::proof]
 #[kani::stub(ctrlc::set_handler, set_handler_stub)]
 #[kani::unwind(5)]
